@@ -310,7 +310,7 @@ PROPS['C02'] = dict(
                'that a skipped or doubled step and a replaced failure are visible). The SharedFuture observer family runs in addition for the flattening of a returned SharedFuture that still has other holders (Tracked payload).',
     jobs=lambda tier: pipe_jobs('pipeline')(tier) + [dict(target='shared', family='shared', mode='random', cases=8000 if tier == 'quick' else 150000, workers=2, timeout=900 if tier == 'quick' else 3000)])
 PROPS['C12'] = dict(
-    level='exploration', assumptions=PIPE_ASSUME, level_note=PIPE_NOTE + ' LazyContract heads are not generated (see known findings / DESIGN).',
+    level='exploration', assumptions=PIPE_ASSUME, level_note=PIPE_NOTE,
     technique='rapidcheck-generated lazy pipelines x start mode / abandonment; nothing-before-start, reference model and '
               'eager-twin differential',
     level_text='The same programs behind MakeTask / Schedule heads are started by ToFuture, ToFuture(e), Get, Detach(+sink), '
@@ -426,8 +426,7 @@ _EXTRA = {
     'C13': 'Also generated: an executor stopped by the coroutine itself while it runs on it (then On / kYield / AwaitOn), '
            'awaited futures completed by other coroutines reaching their end, Await(task) on an lvalue incl. destroying '
            'the completed Task, co_return of a value whose copy throws (Future / Task / SharedFuture coroutines).',
-    'C12': 'Heads also include coroutine Tasks (frame-owned Tracked parameter) and LazyContract (one start shape excluded '
-           'as a known finding); the Await start mode also reads the Result in place and destroys the completed Task.',
+    'C12': 'Heads also include coroutine Tasks (frame-owned Tracked parameter) and LazyContract; the Await start mode also reads the Result in place and destroys the completed Task.',
     'C20': 'Wait ranges cover Future and FutureOn handles (value and void); step functors carry a heap-owning copyable '
            'capture moved in from outside the measured window, so a copied functor costs a visible block.',
     'C05': '(c) chains over the library\'s real executors (pool, strands, manual) incl. a RunShared source with inherited '
